@@ -585,8 +585,11 @@ impl SessionManager {
         );
         gauge!(names::client::CONNECTIONS, self.nb_connections);
 
-        // do not be ready to accept right away, wait until we get back to 10% capacity
-        if !self.can_accept && self.nb_connections < self.max_connections * 90 / 100 {
+        // do not be ready to accept right away, wait until we get back to 10% capacity.
+        // The threshold is clamped to 1: with `max_connections = 1`, `1 * 90 / 100`
+        // truncates to 0, `nb_connections < 0` never holds and the worker would
+        // never accept again once its single connection had been refused a peer.
+        if !self.can_accept && self.nb_connections < (self.max_connections * 90 / 100).max(1) {
             debug!(
                 "nb_connections = {}, max_connections = {}, starting to accept again",
                 self.nb_connections, self.max_connections
